@@ -43,6 +43,9 @@ CLAIMED = {
  "C14": dict(text="The round trip is exact if the serialiser's key table equals the deserialiser's, the raw parts stored are exactly the inputs that were parsed, all loaders reach the same Deserialize impl, and optimise leaves the raw parts alone. Each clause is checked on the typed tree after derive expansion: Detection emits `condition` + flattened identifiers_raw only; Rule emits/consumes its four fields (optimised defaulted); visit_map stores under each key a clone of the very value it parsed and tokenises the very text it stores; duplicates rejected; from_str/from_value/load share one impl; optimise never writes the raw parts, sets the flag and is a no-op on a flagged rule.",
              note="serde_yaml's text fidelity (quoting) is trusted; verdict equality for optimised rules reduces to C01.",
              tech="static analysis: writer/reader table agreement on the expanded derive output + def-use (raw == parsed input) rules over THIR", ref="4/C14"),
+ "C01": dict(text="Whole-property equivalence of five tree rewrites is not statically decidable; decided are necessary conditions visible in the optimiser's shape: every arm of every pass is an identity, a congruence (same node, every child through one recursive call back to its position) or a reviewed rewrite (unreviewed rewrite arm = violation); each connective rewrite is tied to an algebraic law evaluated on the solver model extracted from /repo (group-of-one, flattening, double negation, inlining, or-symmetry) so Missing is accounted for; and-operand order preserved (sequence summary of the ten flatten arms, pushes inside the source loop); groups under all()/of() rebuilt member-wise; no member-dropping Vec call, no overwriting conjunct map; text rewrite strips only '.*' with fallback; optimise applies each pass under its switch; optimising never panics (PANIC inventory and lemmas shared with C03); alignment/flag rules of re-batching shared with C07.",
+             note="Not decided: string-level equivalence of merged automata/regex sets, the matrix cache, '.*' stripping; nested-merge laws are argued. Known findings K1, K2a, K2b, K3a, K3b are genuine order/count defects listed in known_findings.json.",
+             tech="static analysis: arm classification over THIR (identity/congruence/reviewed rewrite), law evaluation on the extracted three-valued solver model, order/linearity/counter-context path rules, shared MIR panic inventory", ref="4/C01"),
 }
 PENDING = {}
 props = [json.loads(l) for l in open(os.path.join(V, "properties.jsonl"))]
